@@ -3,7 +3,7 @@
    to their defaults), leaves exactly the suffix, and the same string table. *)
 From Coq Require Import NArith ZArith List Lia Bool.
 From Coq Require Import ZifyBool ZifyN ZifyNat.
-From Desert Require Import Bits Outcome IO IOProofs VarintProofs Types Codec CodecWf CodecLemmas.
+From Desert Require Import Bits Outcome IO IOProofs VarintProofs Types Calendar Codec CodecWf CodecLemmas ChronoLemmas.
 Import ListNotations.
 Open Scope N_scope.
 
@@ -143,13 +143,181 @@ Lemma a_signed_rt k st (w : nat) (wn bits : N) z s :
   read_signed a_reader wn bits (mkA (be_bytes w (to_unsigned bits z) ++ s) k st) = Ok (z, mkA s k st).
 Proof. intros -> H1 H2 H3. apply a_signed_roundtrip; assumption. Qed.
 
+(* ---------- features/chrono.rs helpers ---------- *)
+Lemma to_signed8_small n : n < 128 -> to_signed 8 n = Z.of_N n.
+Proof.
+  intros H. unfold to_signed. change (2 ^ (8 - 1)) with 128.
+  assert (n <? 128 = true) as -> by lia. reflexivity.
+Qed.
+
+Lemma rt_small lo hi n s k st :
+  hi < 128 -> (lo <=? n) && (n <=? hi) = true ->
+  dec_small a_ops lo hi (mkA ([n] ++ s) k st) = Ok (VN n, mkA s k st).
+Proof.
+  intros Hhi Hn. unfold dec_small. change (d_rd a_ops) with a_reader.
+  rewrite (a_read_i8 k st _ (Z.of_N n) s).
+  - cbn [bind].
+    assert (((Z.of_N lo <=? Z.of_N n) && (Z.of_N n <=? Z.of_N hi))%Z = true) as -> by lia.
+    rewrite N2Z.id. reflexivity.
+  - unfold read_i8. cbn [app list_reader r_u8 bind]. rewrite to_signed8_small by lia. reflexivity.
+Qed.
+
+Lemma rt_offset z s k st :
+  valid_offset z = true ->
+  dec_offset a_ops (mkA ((0 :: write_var_i32 z) ++ s) k st) = Ok (VZ z, mkA s k st).
+Proof.
+  intros Hz. unfold dec_offset. change (d_rd a_ops) with a_reader.
+  rewrite <- app_comm_cons, a_r_u8. cbn [bind]. change (0 =? 0) with true. cbv iota.
+  rewrite (a_read_var_i32 k st _ z s)
+    by (apply var_i32_roundtrip_list, valid_offset_i32; exact Hz).
+  cbn [bind]. rewrite Hz. reflexivity.
+Qed.
+
+Lemma rt_tz nm st b st' s k :
+  tz_known nm = true -> enc_string nm st = Ok (b, st') ->
+  dec_tz a_ops (mkA ((1 :: b) ++ s) k st) = Ok (VB nm, mkA s k st').
+Proof.
+  intros Hk Henc. unfold dec_tz. change (d_rd a_ops) with a_reader.
+  rewrite <- app_comm_cons, a_r_u8. cbn [bind]. change (1 =? 1) with true. cbv iota.
+  rewrite (rt_string nm st b st' s k (tz_known_utf8 _ Hk) Henc). cbn [bind].
+  rewrite Hk. reflexivity.
+Qed.
+
+Lemma rt_ndate v b s k st :
+  wf_ndate v = true -> enc_ndate v = Some b ->
+  dec_ndate a_ops (mkA (b ++ s) k st) = Ok (v, mkA s k st).
+Proof.
+  intros Hwf Henc. apply wf_ndate_inv in Hwf as (y & m & d & -> & Hv).
+  cbn [enc_ndate] in Henc. injection Henc as <-.
+  unfold dec_ndate. change (d_rd a_ops) with a_reader. rewrite <- app_assoc.
+  rewrite (a_read_var_u32 k st _ (to_unsigned 32 y) ([m; d] ++ s))
+    by (apply var_u32_roundtrip_list, to_unsigned_lt).
+  cbn [bind app]. rewrite a_r_u8. cbn [bind]. rewrite a_r_u8. cbn [bind]. cbv zeta.
+  rewrite (valid_ymd_i32 _ _ _ Hv), Hv. reflexivity.
+Qed.
+
+Lemma rt_ntime v b s k st :
+  wf_ntime v = true -> enc_ntime v = Some b ->
+  dec_ntime a_ops (mkA (b ++ s) k st) = Ok (v, mkA s k st).
+Proof.
+  intros Hwf Henc. apply wf_ntime_inv in Hwf as (h & mi & sec & ns & -> & Hv).
+  cbn [enc_ntime] in Henc. injection Henc as <-.
+  unfold dec_ntime. change (d_rd a_ops) with a_reader.
+  cbn [app]. rewrite a_r_u8. cbn [bind]. rewrite a_r_u8. cbn [bind]. rewrite a_r_u8. cbn [bind].
+  rewrite (a_read_var_u32 k st _ ns s)
+    by (apply var_u32_roundtrip_list, (valid_hmsn_u32 _ _ _ _ Hv)).
+  cbn [bind]. rewrite Hv. reflexivity.
+Qed.
+
+Lemma rt_ndt v b s k st :
+  wf_ndt v = true -> enc_ndt v = Some b ->
+  dec_ndt a_ops (mkA (b ++ s) k st) = Ok (v, mkA s k st).
+Proof.
+  intros Hwf Henc. apply wf_ndt_inv in Hwf as (d & t & -> & Hd & Ht).
+  cbn [enc_ndt] in Henc.
+  destruct (enc_ndate d) as [a|] eqn:Ea; [|discriminate].
+  destruct (enc_ntime t) as [c|] eqn:Ec; [|discriminate].
+  injection Henc as <-. unfold dec_ndt. rewrite <- app_assoc.
+  rewrite (rt_ndate d a (c ++ s) k st Hd Ea). cbn [bind].
+  rewrite (rt_ntime t c s k st Ht Ec). reflexivity.
+Qed.
+
+Lemma of_opt_inv o st b st' : of_opt o st = Ok (b, st') -> o = Some b /\ st' = st.
+Proof.
+  unfold of_opt. destruct o as [x|]; [|discriminate].
+  intros H. apply ok_pair_inj in H as [<- <-]. auto.
+Qed.
+
+(* the primitives of features/chrono.rs and the two public var-int writers; kept apart from
+   rt_prim because simplifying `tz_known` would unfold the table of zone names *)
+Definition is_ext_prim (p : prim) : bool :=
+  match p with
+  | PWeekday | PMonth | PFixedOffset | PTz | PDateTimeUtc | PNaiveDate | PNaiveTime | PNaiveDateTime
+  | PDateTimeLocal | PDateTimeFixed | PDateTimeTz | PVarU32 | PVarI32 => true
+  | _ => false
+  end.
+
+Lemma rt_prim_ext p v st b st' s k :
+  is_ext_prim p = true ->
+  wf_prim_val p v = true -> enc_prim p v st = Ok (b, st') ->
+  dec_prim a_ops p (mkA (b ++ s) k st) = Ok (v, mkA s k st').
+Proof.
+  intros Hx Hwf Henc.
+  destruct p; try discriminate Hx; clear Hx; unfold wf_prim_val in Hwf; unfold enc_prim in Henc.
+  - (* Weekday *)
+    destruct v as [n|z|bs|tag vs]; try discriminate Hwf.
+    apply ok_pair_inj in Henc as [<- <-]. unfold dec_prim.
+    apply rt_small; [reflexivity | exact Hwf].
+  - (* Month *)
+    destruct v as [n|z|bs|tag vs]; try discriminate Hwf.
+    apply ok_pair_inj in Henc as [<- <-]. unfold dec_prim.
+    apply rt_small; [reflexivity | exact Hwf].
+  - (* FixedOffset *)
+    destruct v as [n|z|bs|tag vs]; try discriminate Hwf.
+    apply ok_pair_inj in Henc as [<- <-]. unfold dec_prim.
+    apply rt_offset. exact Hwf.
+  - (* Tz *)
+    destruct v as [n|z|nm|tag vs]; try discriminate Hwf.
+    destruct (enc_string nm st) as [[b0 st0]| | |] eqn:E; cbn [bind] in Henc; try discriminate Henc.
+    apply ok_pair_inj in Henc as [<- <-]. unfold dec_prim.
+    apply rt_tz; assumption.
+  - (* DateTime<Utc> *)
+    destruct v as [n|z|bs|tag vs]; try discriminate Hwf.
+    destruct tag; try discriminate Hwf.
+    destruct vs as [|[|secs| |] [|[nanos| | |] [|? ?]]]; try discriminate Hwf.
+    apply ok_pair_inj in Henc as [<- <-]. unfold dec_prim. change (d_rd a_ops) with a_reader.
+    pose proof (valid_ts_i64 _ _ Hwf) as [H1 H2].
+    rewrite <- app_assoc.
+    rewrite (a_signed_rt k st 8 8 64) by (try reflexivity; exact H1).
+    cbn [bind]. rewrite (a_be_rt k st 4 4) by (try reflexivity; exact H2). cbn [bind].
+    rewrite Hwf. reflexivity.
+  - (* NaiveDate *)
+    apply of_opt_inv in Henc as [Henc ->]. unfold dec_prim. apply rt_ndate; assumption.
+  - (* NaiveTime *)
+    apply of_opt_inv in Henc as [Henc ->]. unfold dec_prim. apply rt_ntime; assumption.
+  - (* NaiveDateTime *)
+    apply of_opt_inv in Henc as [Henc ->]. unfold dec_prim. apply rt_ndt; assumption.
+  - (* DateTime<Local> *)
+    apply of_opt_inv in Henc as [Henc ->]. unfold dec_prim. apply rt_ndt; assumption.
+  - (* DateTime<FixedOffset> *)
+    destruct v as [n|z|bs|tag vs]; try discriminate Hwf.
+    destruct tag; try discriminate Hwf.
+    destruct vs as [|dt [|[|off| |] [|? ?]]]; try discriminate Hwf.
+    apply andb_true_iff in Hwf as [Hwf H3]. apply andb_true_iff in Hwf as [H1 H2].
+    destruct (enc_ndt dt) as [b0|] eqn:E; cbn [of_opt bind] in Henc; try discriminate Henc.
+    apply ok_pair_inj in Henc as [<- <-]. unfold dec_prim.
+    rewrite <- app_assoc. rewrite (rt_ndt dt b0 _ k st H1 E). cbn [bind].
+    rewrite (rt_offset off s k st H2). cbn [bind]. rewrite H3. reflexivity.
+  - (* DateTime<Tz> *)
+    destruct v as [n|z|bs|tag vs]; try discriminate Hwf.
+    destruct tag; try discriminate Hwf.
+    destruct vs as [|dt [|[| |nm|] [|? ?]]]; try discriminate Hwf.
+    apply andb_true_iff in Hwf as [H1 H2].
+    destruct (enc_ndt dt) as [b0|] eqn:E; cbn [of_opt bind] in Henc; try discriminate Henc.
+    destruct (enc_string nm st) as [[b1 st1]| | |] eqn:E1; cbn [bind] in Henc; try discriminate Henc.
+    apply ok_pair_inj in Henc as [<- <-]. unfold dec_prim.
+    rewrite <- app_assoc. rewrite (rt_ndt dt b0 _ k st H1 E). cbn [bind].
+    rewrite (rt_tz nm st b1 st1 s k H2 E1). reflexivity.
+  - (* var_u32 *)
+    destruct v as [n|z|bs|tag vs]; try discriminate Hwf.
+    apply ok_pair_inj in Henc as [<- <-]. unfold dec_prim. change (d_rd a_ops) with a_reader.
+    rewrite (a_read_var_u32 k st _ n s) by (apply var_u32_roundtrip_list; apply N.ltb_lt; exact Hwf).
+    reflexivity.
+  - (* var_i32 *)
+    destruct v as [n|z|bs|tag vs]; try discriminate Hwf.
+    apply ok_pair_inj in Henc as [<- <-]. unfold dec_prim. change (d_rd a_ops) with a_reader.
+    rewrite (a_read_var_i32 k st _ z s) by (apply var_i32_roundtrip_list; lia).
+    reflexivity.
+Qed.
+
 (* ---------- primitives ---------- *)
 Lemma rt_prim p v st b st' s k :
   wf_prim_val p v = true -> enc_prim p v st = Ok (b, st') ->
   dec_prim a_ops p (mkA (b ++ s) k st) = Ok (v, mkA s k st').
 Proof.
   intros Hwf Henc.
-  destruct p; cbn in Hwf;
+  destruct (is_ext_prim p) eqn:Hx; [apply rt_prim_ext; assumption|].
+  destruct p; try discriminate Hx; clear Hx; cbn in Hwf;
     try (destruct v as [n|z|bs|tag vs]; try discriminate; []);
     try discriminate.
   - (* u8 *) cbn in Henc. injection Henc as <- <-. reflexivity.
